@@ -518,7 +518,10 @@ Definition ty_s1 (t : ty) : bool := match t with TAny => true | _ => ty_s1in t e
 Definition s1_builtins : list str := Eval compute in map s_
   ["print"; "sprint"; "read"; "cls"; "sleep"; "len"; "has"; "del"; "typeof"; "str2num"; "str2bool"; "exit"; "panic";
    "join"; "startswith"; "endswith"; "min"; "max"; "abs"; "sqrt";
-   "circle"; "width"; "move"; "line"; "rect"; "color"; "colour"; "stroke"; "fill"; "linecap"; "text"]%string.
+   "circle"; "width"; "move"; "line"; "rect"; "color"; "colour"; "stroke"; "fill"; "linecap"; "text";
+   (* the pure string and math built-ins of Sem.pure_builtin (results typed in SemSound.pure_builtin_sound) *)
+   "upper"; "lower"; "trim"; "replace"; "index"; "split"; "hsl"; "floor"; "ceil"; "round";
+   "pow"; "atan2"; "log"; "sin"; "cos"; "rand"; "rand1"]%string.
 
 (* the type component of the fragment predicate: in the strict fragment `any` never occurs inside a
    composite type *)
